@@ -268,8 +268,18 @@ def _worker(task):
     except Exception:  # noqa
         saw_abort = False
     r = _orig_worker(task)
+    stale = None
+    if isinstance(task.exprs, bytes) and not (saw_abort and r.tests == 0):
+        # which input did the worker really work on?  (its cached copy must be the one the task carries)
+        try:
+            import pickle
+            given = dig(pickle.loads(task.exprs))
+            used = getattr(sd, '__cached_exprs', None)
+            stale = (used is not None and dig(used) != given)
+        except Exception:  # noqa
+            stale = None
     log('ddmin_result', id=r.task_id, success=r.success, tests=r.tests, cand=dig(r.exprs) if r.success else None,
-        aborted=(saw_abort and not r.success and r.tests == 0))
+        aborted=(saw_abort and not r.success and r.tests == 0), stale_base=stale)
     return r
 
 
